@@ -64,6 +64,25 @@ Proof.
   rewrite (parse_sound _ _ Ha Ua), (parse_sound _ _ Hb Ub). apply cannotBothBeTrue_sound; auto.
 Qed.
 
+(* equal as std::map keys (defaulted operator== / <=>) implies isEqualTo for defined conjunctions, hence
+   the analysed outputs agree in every valuation *)
+Lemma conj_same_isEqualTo a b : conj_same a b = true -> c_undef a = false -> isEqualTo a b = true.
+Proof.
+  unfold conj_same, isEqualTo. intros H Ua.
+  apply andb_prop in H as [H Hall]. apply andb_prop in H as [H Hlen]. apply andb_prop in H as [Hu Hc].
+  apply Bool.eqb_prop in Hu. apply Bool.eqb_prop in Hc. rewrite <- Hu, Ua. cbn [orb].
+  rewrite <- Hc. destruct (c_contra a); cbn [orb andb]; [reflexivity|].
+  rewrite Hlen. cbn [negb].
+  rewrite forallb_forall in Hall |- *. intros t Ht. specialize (Hall t Ht).
+  unfold term_same in Hall. unfold same_in. destruct (term_find (c_terms b) (t_driver t)); [|discriminate].
+  apply andb_prop in Hall as [Hn _]. exact Hn.
+Qed.
+
+Lemma same_key_sound ra rb ca cb :
+  parse g ra = Some ca -> parse g rb = Some cb -> conj_same ca cb = true -> c_undef ca = false ->
+  dval vals u ra = dval vals u rb.
+Proof. intros Ha Hb Hs Ua. eapply equal_sound; eauto. apply conj_same_isEqualTo; assumption. Qed.
+
 End Top.
 
 (* a condition rebuilt from its analysed form is equivalent to the original *)
